@@ -8,6 +8,7 @@
 
 mod bits;
 mod comps;
+mod cont_engine;
 mod derived;
 mod gen_queries;
 mod gen_tuples;
